@@ -240,11 +240,11 @@ example : (Easing.outPowi 3 : Easing ℝ).PosPower := by unfold Easing.PosPower;
 /-- a mapping clamps its input to the input range: inputs at or beyond either end of the range
     give exactly the corresponding end of the output range, and every output lies between
     the two ends of the output range. -/
-theorem C19_mapping_clamps (m : Mapping ℝ) (he : m.easing.PosPower) (hin : m.in0 < m.in1) (x : ℝ) :
+theorem C19_mapping_clamps (m : Mapping ℝ ℝ) (he : m.easing.PosPower) (hin : m.in0 < m.in1) (x : ℝ) :
     (x ≤ m.in0 → m.map64 x = m.out0) ∧ (m.in1 ≤ x → m.map64 x = m.out1)
       ∧ min m.out0 m.out1 ≤ m.map64 x ∧ m.map64 x ≤ max m.out0 m.out1 := by
   have hd : 0 < m.in1 - m.in0 := by linarith
-  unfold Mapping.map64 Mapping.amount lerp64
+  unfold Mapping.map64 Mapping.map Mapping.amount tw64 lerp64
   simp only [lit_0, lit_1]
   have hc := clamp_mem ((x - m.in0) / (m.in1 - m.in0)) 0 1 (by norm_num)
   refine ⟨fun hx => ?_, fun hx => ?_, ?_, ?_⟩
